@@ -182,7 +182,7 @@ def r1_plumbing(ctx: Context, pl: Plumbing) -> None:
             if ":via:" in u:
                 head_, via_ = u.split(":via:", 1)
                 # a copy of the loaded value has the loaded value (copy.deepcopy(x), np.array(x), np.asarray(x), x.copy(), list(x) / tuple(x) of a sequence)
-                if re.fullmatch(r"(copy\.deepcopy|copy\.copy|np\.array|numpy\.array|np\.asarray|np\.copy)\(\s*" + re.escape(r["local"]) + r"\s*(,\s*copy\s*=\s*True\s*)?\)|" + re.escape(r["local"]) + r"\.copy\(\)", via_.strip()):
+                if re.fullmatch(r"(copy\.deepcopy|copy\.copy|np\.array|numpy\.array|np\.asarray|np\.copy|list|tuple)\(\s*" + re.escape(r["local"]) + r"\s*(,\s*copy\s*=\s*True\s*)?\)|" + re.escape(r["local"]) + r"\.copy\(\)", via_.strip()):
                     u = head_
                 else:
                     if not LOSSY.search(via_) and not re.fullmatch(re.escape(r["local"]), via_.strip()):
